@@ -31,8 +31,8 @@ func init() {
 				n = 60000
 			}
 			return fw.Meta{N: n, Level: "exploration", Chunk: 50, CaseTimeoutS: 120, MinNT: 300,
-				Rule:        "seeded writer programs (Write/WriteSync/Seek back to an earlier record boundary/rejected Seek into the header or past the size/Close) over nil, empty, random, compressible and marker-laden records with sizes around buffer, page and 4 KiB-window boundaries (every 100th program also around 512 KiB and 1 MiB) x 4 compression types x write buffers {8,13,64,4096,64Ki,default} x buffered/direct-I/O writer; then (a) sequential reader programs mixing ReadNext and SkipNext with read buffers {1,3,16,37,4096,64Ki,4Mi} (every other second program over a file on disk through the direct-I/O reader factory, block-multiple buffers), both calls must report EOF at the end (also behind the zero padding of direct-I/O files), (b) ReadNextAt at every returned offset, (c) SeekNext from every byte offset 0..size (files <= 8 KiB; record starts +-2 and window boundaries beyond). Non-trivial: >=3 surviving records incl. a nil or marker-ending one and >=1 skip; distinct by hash of program+config. Payloads embedding a complete valid record image are not generated (format cannot distinguish them)",
-				MinObs:      map[string]int64{"seeknext_offsets_checked": 100000, "skips_checked": 1000, "nil_records_skipped": 50, "seek_back_programs": 100, "rejected_seeks": 100, "readat_checked": 5000, "directio_files": 10, "directio_files_with_one_or_two_padding_bytes": 20, "records_of_half_a_mebibyte_or_more": 10, "directio_reader_runs": 30, "records_ending_in_marker_prefix": 200},
+				Rule:        "seeded writer programs (Write/WriteSync/Seek back to an earlier record boundary/rejected Seek into the header or past the size/Close) over nil, empty, random, compressible and marker-laden records with sizes around buffer, page and 4 KiB-window boundaries (every 100th program also around 512 KiB and 1 MiB) x 4 compression types x write buffers {8,13,64,4096,64Ki,default} x buffered/direct-I/O writer; then (a) sequential reader programs mixing ReadNext and SkipNext with read buffers {1,3,16,37,4096,64Ki,4Mi} (every other second program over a file on disk through the direct-I/O reader factory, block-multiple buffers), both calls must report EOF at the end (also behind the zero padding of direct-I/O files), (b) ReadNextAt at every returned offset, (c) SeekNext from every byte offset 0..size (files <= 8 KiB; record starts +-2 and window boundaries beyond). Non-trivial: >=3 surviving records incl. a nil or marker-ending one and >=1 skip; distinct by hash of program+config. Payloads embedding a complete valid record image are not generated (format cannot distinguish them) Every 12th buffered-writer program puts its file on a real disk and reads it through the direct-I/O reader factory (file size no block multiple).",
+				MinObs:      map[string]int64{"buffered_files_read_through_the_direct_io_reader": 20, "seeknext_offsets_checked": 100000, "skips_checked": 1000, "nil_records_skipped": 50, "seek_back_programs": 100, "rejected_seeks": 100, "readat_checked": 5000, "directio_files": 10, "directio_files_with_one_or_two_padding_bytes": 20, "records_of_half_a_mebibyte_or_more": 10, "directio_reader_runs": 30, "records_ending_in_marker_prefix": 200},
 				Assumptions: []string{"direct-I/O writer is used without Seek/WriteSync (documented limitation) and with block-multiple buffers"},
 			}
 		},
